@@ -76,7 +76,12 @@ func init() {
 			d.w2, cmd2 = mk("W2")
 			// when the connection is removed (after W1 was handled) and when W2's verdicts come,
 			// relative to the old and to the new deadline
-			dropAfter := d.timeout * time.Duration(1+w.T.Choose(3, "drop-after-quarters")) / 4
+			// (6/4: the first write has timed out before its connection goes away)
+			dropAfter := d.timeout * time.Duration([]int{1, 2, 3, 6}[w.T.Choose(4, "drop-after-quarters")]) / 4
+			// with two callbacks: only the first one approves the first write (at once) / the
+			// second write - a write approved by some callbacks only times out
+			w1Partial := d.ncb == 2 && w.T.Bool(1, 3, "first-write-partly-approved")
+			w2Partial := d.ncb == 2 && w.T.Bool(1, 3, "second-write-partly-approved")
 			verdictCase := w.T.Choose(6, "verdict-case")
 			w1Answers := w.T.Bool(1, 4, "first-write-answered-late")
 			for cb := 0; cb < d.ncb; cb++ {
@@ -100,6 +105,13 @@ func init() {
 					}
 					w.Logf("presented %s to callback %d", x.name, cb)
 					if x == d.w1 {
+						if w1Partial {
+							if cb == 0 {
+								sf.F.ApproveOrDenyWrite(msg, model.ErrorType{})
+								w.Probe("c12r-first-write-partly-approved")
+							}
+							return
+						}
 						// the first write is abandoned; sometimes the application answers it much later
 						// (after its connection is gone): that must not count for anything
 						if w1Answers {
@@ -109,6 +121,11 @@ func init() {
 						} else {
 							w.Fault("app.silent")
 						}
+						return
+					}
+					if w2Partial && cb == 1 {
+						w.Fault("app.silent")
+						w.Probe("c12r-second-write-partly-approved")
 						return
 					}
 					simrt.WaitUntil("verdict-time", func() bool { return x.verdictAt != 0 })
@@ -271,7 +288,14 @@ func init() {
 					w.Violate("C12/reconnect/unanimous-approval-not-applied", "%s", desc)
 				}
 				w.Probe("c12r-expect-applied")
-			case x.nVerdicts < d.ncb || (x.lastInvoke > x.t1+d.timeout+tol && x.timer != nil && x.timerEnd != 0 && x.timerEnd < x.lastInvokeSeq):
+			case x.nVerdicts < d.ncb:
+				// approved by some of the callbacks only (whatever an earlier write under the same
+				// counter had collected)
+				if nErr != 1 || applied != 0 {
+					w.Violate("C12/reconnect/partly-approved-write-applied", "%s", desc)
+				}
+				w.Probe("c12r-expect-timeout")
+			case (x.lastInvoke > x.t1+d.timeout+tol && x.timer != nil && x.timerEnd != 0 && x.timerEnd < x.lastInvokeSeq):
 				// (the timeout counts once its callback has run: a timer that is due but whose
 				// goroutine is stalled has not decided anything yet)
 				if nErr != 1 || applied != 0 {
